@@ -281,6 +281,70 @@ JALR_CALL = "                inst = ITypeInstruction(item.line, 'jalr', rd='x1',
 PRESERVING += [('p7-call-register-alias', ['C03', 'C05', 'C07'], [(A, JALR_CALL, JALR_CALL.replace("rd='x1', rs1='x1'", "rd='ra', rs1='ra'"))])]
 BREAKING += [('c7-call-register-alias-other', ['C07'], [(A, JALR_CALL, JALR_CALL.replace("rd='x1', rs1='x1'", "rd='ra', rs1='t1'"))])]
 
+# ---- round 8 leftovers: both halves from one helper returning a namedtuple; the compressed format looked up once; keywords only -------
+RELOC_OLD = ("def relocate_hi(imm):\n    if imm & 0x800:\n        imm += 2**12\n    return sign_extend((imm >> 12) & 0x000fffff, 20)\n\n\n"
+             "def relocate_lo(imm):\n    return sign_extend(imm & 0x00000fff, 12)\n")
+
+
+def shared_record(ret='HiLo(hi, lo)', lo_field='.lo'):
+    return [(A, "from collections import ChainMap\n", "from collections import ChainMap, namedtuple\n"),
+            (A, RELOC_OLD, "HiLo = namedtuple('HiLo', ['hi', 'lo'])\n\n\ndef relocate(imm):\n    upper = imm\n    if upper & 0x800:\n        upper += 2**12\n"
+                           "    hi = sign_extend((upper >> 12) & 0x000fffff, 20)\n    lo = sign_extend(imm & 0x00000fff, 12)\n    return " + ret + "\n\n\n"
+                           "def relocate_hi(imm):\n    return relocate(imm).hi\n\n\ndef relocate_lo(imm):\n    return relocate(imm)" + lo_field + "\n")]
+
+
+_C_FORMATS = ['cr', 'crj', 'cre', 'ci', 'cia', 'cin', 'css', 'ciw', 'cl', 'cs', 'ca', 'cb', 'cj']
+
+
+def format_lookup(swap=None):
+    """parse_item's 13 `head in C?_TYPE_INSTRUCTIONS` tests become one lookup in a mnemonic -> format table built at import time"""
+    rows = []
+    for f in _C_FORMATS:
+        t = f
+        if swap and f in swap:
+            t = swap[0] if f == swap[1] else swap[1]
+        rows.append("        ('{}', {}_TYPE_INSTRUCTIONS),\n".format(f, t.upper()))
+    table = ("COMPRESSED_FORMATS = {\n    mnemonic: fmt\n    for fmt, mnemonics in reversed([\n" + "".join(rows) + "    ])\n    for mnemonic in mnemonics\n}\n\n\n")
+    edits = [(A, "def parse_item(line_tokens):\n", table + "def parse_item(line_tokens):\n"),
+             (A, "    head = tokens[0].lower()\n\n    # labels", "    head = tokens[0].lower()\n    compressed_format = COMPRESSED_FORMATS.get(head)\n\n    # labels")]
+    for f in _C_FORMATS:
+        edits.append((A, "    elif head in {}_TYPE_INSTRUCTIONS:\n".format(f.upper()), "    elif compressed_format == '{}':\n".format(f)))
+    return edits
+
+
+def eval_keywords(hi_args='position=position, env=env, line=line'):
+    return [(A, HI_EVAL, HI_EVAL.replace('self.expr.eval(position, env, line)', 'self.expr.eval(' + hi_args + ')')),
+            (A, LO_EVAL, LO_EVAL.replace('self.expr.eval(position, env, line)', 'self.expr.eval(line=line, env=env, position=position)'))]
+
+
+PRESERVING += [
+    ('p8-reloc-shared-record', ['C03', 'C05', 'C07'], shared_record()),
+    ('p8-reloc-shared-record-index', ['C07'], shared_record(lo_field='[1]')),
+    ('p8-parse-format-lookup', None, format_lookup()),
+    ('p8-eval-keywords-only', ['C07', 'C11'], eval_keywords()),
+]
+BREAKING += [
+    ('c8-reloc-shared-record-swapped', ['C07'], shared_record(ret='HiLo(lo, hi)')),
+    ('c8-reloc-shared-record-index', ['C07'], shared_record(lo_field='[0]')),
+    ('c8-parse-format-lookup-swapped', ['C02'], format_lookup(swap=('cl', 'cs'))),
+    ('c8-eval-keywords-position', ['C07'], eval_keywords('position=position - 4, env=env, line=line')),
+]
+
+# ---- the guard of the near jump written with an assignment expression (pathwalk binds the name; an opaque guard is no verdict) ---------
+JAL_GUARD = "            value = c_int32(value).value  # signed imm\n            if value >= (-2**20) and value <= (2**20 - 1):\n"
+
+
+def walrus_guard(hi='(2**20 - 1)'):
+    return [(A, JAL_GUARD, "            if (value := c_int32(value).value) >= (-2**20) and value <= " + hi + ":\n", 1)]
+
+
+PRESERVING += [
+    ('p8-jump-guard-walrus', ['C03', 'C05', 'C07'], walrus_guard()),
+    # the key bound by an assignment expression is the item's own mnemonic (was: a finding, then no verdict)
+    ('p8-pack-walrus-key', ['C01', 'C02'], [(A, "        encode_func = INSTRUCTIONS[item.name]\n", "        encode_func = INSTRUCTIONS[(mnemonic := item.name)]\n")]),
+]
+BREAKING += [('c8-jump-guard-walrus-wide', ['C07'], walrus_guard('(2**20 + 1)'))]
+
 # ---- a no-verdict in one rule group must not mask a violation another group establishes (Report.undecided / encprops.attempt) ----------
 R_TYPE_FN = ("def r_type(rd, rs1, rs2, *, opcode, funct3, funct7):\n    rd = lookup_register(rd)\n    rs1 = lookup_register(rs1)\n    rs2 = lookup_register(rs2)\n\n"
              "    code = 0\n    code |= opcode\n    code |= rd << 7\n    code |= funct3 << 12\n    code |= rs1 << 15\n    code |= rs2 << 20\n    code |= funct7 << 25\n\n    return code\n")
@@ -311,7 +375,7 @@ UNDECIDED = [
     # the unsupported encoder alone: no verdict (the twins above add a real violation to it)
     ('u7-unsupported-encoder-alone', ['C01', 'C06'], UNSUPPORTED_ENCODER),
     # the encoder looked up with a key the walk does not follow (was: "not looked up by the item's own mnemonic")
-    ('u7-pack-walrus-key', ['C01'], [(A, "        encode_func = INSTRUCTIONS[item.name]\n", "        encode_func = INSTRUCTIONS[(mnemonic := item.name)]\n")]),
+    ('u7-pack-converted-key', ['C01'], [(A, "        encode_func = INSTRUCTIONS[item.name]\n", "        encode_func = INSTRUCTIONS[str(item.name)]\n")]),
     # the imm(reg) form recognised by a test the token flow does not model: no verdict on the routing (was: the paren branch judged
     # as the plain form, "source operand 4 is handed to encoder parameter 1")
     ('u7-parse-paren-membership', ['C01'], [(A, S_ARM, S_ARM.replace("if tokens[3] == '(':", "if '(' in tokens[3:4]:"), 0)]),
